@@ -132,6 +132,25 @@ class _Canonical(ast.NodeTransformer):
                 setattr(node, fld, stripped)
         return node
 
+    def visit_FunctionDef(self, node):
+        node = self.generic_visit(node)
+        # inside functions an annotated assignment is the plain assignment (annotations of locals and attributes are not
+        # evaluated for effect by any property); a bare annotation `x: T` binds nothing and is dropped
+        class _Ann(ast.NodeTransformer):
+            def visit_FunctionDef(self, n):     # nested functions were already handled by their own visit
+                return n
+
+            def visit_ClassDef(self, n):
+                return n
+
+            def visit_AnnAssign(self, n):
+                if n.value is None:
+                    return ast.copy_location(ast.Pass(), n)
+                return ast.copy_location(ast.Assign(targets=[n.target], value=n.value), n)
+        for fld in ("body",):
+            node.body = [_Ann().visit(st) if not isinstance(st, (ast.FunctionDef, ast.ClassDef)) else st for st in node.body]
+        return node
+
     def visit_BinOp(self, node):
         self.generic_visit(node)
         l, r = node.left, node.right
@@ -285,6 +304,91 @@ def _rename_locals(fn: ast.FunctionDef, template) -> None:
             n.name = mapping[n.name]
 
 
+_PURE_BUILTINS = {"len", "int", "bool", "bytes", "bytearray", "min", "max", "abs", "tuple", "list", "divmod", "float", "str", "hex"}
+_SIMPLE_STMTS = (ast.Assign, ast.AugAssign, ast.Expr, ast.Return, ast.Raise, ast.Assert, ast.Delete)
+
+
+def _fn_blocks(fn: ast.FunctionDef):
+    out = []
+
+    def rec(node):
+        for fld in ("body", "orelse", "finalbody"):
+            b = getattr(node, fld, None)
+            if isinstance(b, list) and b and isinstance(b[0], ast.stmt):
+                out.append(b)
+                for st in b:
+                    if not isinstance(st, (ast.FunctionDef, ast.ClassDef)):
+                        rec(st)
+        for h in getattr(node, "handlers", []) or []:
+            out.append(h.body)
+            for st in h.body:
+                rec(st)
+    rec(fn)
+    return out
+
+
+def _inline_fresh_temps(fn: ast.FunctionDef, known: set) -> None:
+    """A local that the reference tree does not have, assigned once from a call-free expression and read only in the
+    statement that immediately follows, is replaced by its expression (the inverse of "extract variable").  Applied only to
+    names absent from the recorded local names, so the unchanged tree is never rewritten.  Semantics-preserving: the
+    expression is evaluated at its (single) place of use, no call of the using statement is evaluated before it."""
+    params = {p.arg for p in fn.args.posonlyargs + fn.args.args + fn.args.kwonlyargs}
+    for _ in range(8):
+        changed = False
+        stores, loads = {}, {}
+        for n in ast.walk(fn):
+            if isinstance(n, ast.Name):
+                (stores if isinstance(n.ctx, (ast.Store, ast.Del)) else loads).setdefault(n.id, []).append(n)
+            elif isinstance(n, (ast.Global, ast.Nonlocal)):
+                return
+        for blk in _fn_blocks(fn):
+            for i in range(len(blk) - 1):
+                st, nxt = blk[i], blk[i + 1]
+                if not (isinstance(st, ast.Assign) and len(st.targets) == 1 and isinstance(st.targets[0], ast.Name)):
+                    continue
+                t = st.targets[0].id
+                if t in known or t in params or len(stores.get(t, [])) != 1 or not loads.get(t):
+                    continue
+                if not isinstance(nxt, _SIMPLE_STMTS):
+                    continue
+                inside = [x for x in ast.walk(nxt) if isinstance(x, ast.Name) and x.id == t and isinstance(x.ctx, ast.Load)]
+                if len(inside) != len(loads[t]) or len(inside) != 1:
+                    continue
+                if any(isinstance(x, (ast.Lambda, ast.ListComp, ast.SetComp, ast.DictComp, ast.GeneratorExp, ast.NamedExpr, ast.Await, ast.Yield, ast.YieldFrom)) for x in ast.walk(nxt)):
+                    continue
+                rhs = st.value
+                if any(isinstance(x, (ast.Lambda, ast.ListComp, ast.SetComp, ast.DictComp, ast.GeneratorExp, ast.NamedExpr, ast.Await, ast.Yield, ast.YieldFrom, ast.Starred)) for x in ast.walk(rhs)):
+                    continue
+                if any(isinstance(x, ast.Call) and not (isinstance(x.func, ast.Name) and x.func.id in _PURE_BUILTINS) for x in ast.walk(rhs)):
+                    continue
+                use = inside[0]
+                # no call of the using statement may run before the use (it could change what the expression reads)
+                upos = (getattr(use, "lineno", 0), getattr(use, "col_offset", 0))
+                early = False
+                for c in ast.walk(nxt):
+                    if isinstance(c, ast.Call) and not any(x is use for x in ast.walk(c)):
+                        if (getattr(c, "lineno", 0), getattr(c, "col_offset", 0)) < upos:
+                            early = True
+                if early and any(isinstance(x, (ast.Attribute, ast.Subscript)) for x in ast.walk(rhs)):
+                    continue
+                import copy as _copy
+                new = _copy.deepcopy(rhs)
+
+                class _R(ast.NodeTransformer):
+                    def visit_Name(self, node):
+                        if node is use:
+                            return ast.copy_location(new, node)
+                        return node
+                blk[i + 1] = _R().visit(nxt)
+                del blk[i]
+                changed = True
+                break
+            if changed:
+                break
+        if not changed:
+            return
+
+
 _LOCALNAMES = None
 
 
@@ -315,6 +419,12 @@ def canonicalise(tree: ast.Module, rel: str = "") -> ast.Module:
                         q += ".setter"
                     if q in names:
                         _rename_locals(n, [(s, list(ns)) for s, ns in names[q]])
+                    known = {x for _s, ns in names.get(q, []) for x in ns}
+                    # locals of enclosing/nested functions are known names as well (closures)
+                    for qq, sh in names.items():
+                        if qq.startswith(q + ".") or q.startswith(qq + "."):
+                            known |= {x for _s, ns in sh for x in ns}
+                    _inline_fresh_temps(n, known)
                     walk(n, q + ".")
         walk(tree, "")
     ast.fix_missing_locations(tree)
